@@ -142,7 +142,7 @@ def check(ctx):
     chosen = pick_chains_quick(chains, rnd) if quick else chains
     if quick:       # plus a seeded sample of the remaining chains
         rest = [ch for ch in chains if ch not in chosen]
-        chosen = chosen + rnd.sample(rest, 60)
+        chosen = chosen + rnd.sample(rest, 250)
     tests = os.path.join(c.REPO, "tests")
     files = sorted(glob.glob(os.path.join(tests, "*.dlt"))) + [os.path.join(tests, "can_example1.asc")]
     nfile = 150 if quick else 300
